@@ -223,9 +223,9 @@ def Meth.all : List Meth :=
   [.mean, .covariance, .meanCovariance, .uncertainty, .timeDerivative, .gradient, .hessian,
    .hessianLogDet]
 
-/-- `time` has no default in the signatures of the four derivative methods. -/
+/-- Every method declares `time=None` (the four derivative methods had no default before the repair of
+    finding H3-C2: `p.gradient(Xt)` raised `TypeError: missing 1 required positional argument`). -/
 def Meth.timeRequired : Meth → Bool
-  | .timeDerivative | .gradient | .hessian | .hessianLogDet => true
   | _ => false
 
 /-- Keyword flags.  `normalize = none` stands for a value that is not a `bool`. -/
